@@ -62,6 +62,16 @@ class Connection:
     initialized: remove the backreferences and the placeholders created
     for the line, turn the references back into identifiers.
     """
+    targets = self._referenced_lines()
+    self._remove_field_backreferences()
+    self._remove_nonfield_backreferences()
+    self._remove_field_references()
+    self._refs = {}
+    self._gfa = None
+    self._disconnect_unreferenced_placeholders(targets)
+
+  def _referenced_lines(self):
+    """Lines referenced in the reference fields and other references."""
     targets = []
     def collect(ref):
       if isinstance(ref, gfapy.OrientedLine):
@@ -75,15 +85,19 @@ class Connection:
       collect(self._data.get(k))
     for k in self.__class__.OTHER_REFERENCES:
       collect(self._refs.get(k, []))
-    self._remove_field_backreferences()
-    self._remove_nonfield_backreferences()
-    self._remove_field_references()
-    self._refs = {}
-    self._gfa = None
-    for target in targets:
-      if target.virtual and target.is_connected() and \
-          not target.all_references:
-        target.disconnect()
+    return targets
+
+  @staticmethod
+  def _disconnect_unreferenced_placeholders(lines):
+    """
+    Placeholders (virtual lines) exist only as long as a line refers to
+    them; remove those which lost their last reference.
+    """
+    for line in lines:
+      if line.virtual and line.is_connected() and \
+          not line.__dict__.get("_disconnecting", False) and \
+          not line.all_references:
+        line.disconnect()
 
   @property
   def all_references(self):
